@@ -107,3 +107,18 @@ Theorem ex_from_zero :
   check_shared bad = false /\
   find_conflict (mkRegion "bad" bad []) = Some ("dm"%string, (0, 1, (1, 0)))%Z.
 Proof. split; vm_compute; reflexivity. Qed.
+
+(* the symmetric fill for N = 2 on two threads, interleaved *)
+From TK Require Import Par_Fill_Model.
+Definition fx (i j : nat) : Z := Z.of_nat (10 * i + j).
+Definition sym_final :=
+  run_sched key_eqb [0; 1; 0; 1; 0; 1; 0; 0]
+    (init_queues (sym_body Z (list triplet) "dm" fx 2) ex_asg, mkState ex_m0 ex_p0 []).
+
+Theorem ex_sym_fill :
+  valid_asg 2 ex_asg /\ done (fst sym_final) /\
+  sh (snd sym_final) (mkey "dm" 1 0) = 1%Z /\ sh (snd sym_final) (mkey "dm" 1 1) = 11%Z.
+Proof.
+  split; [exact ex_valid|]. split; [intros [|[|t]]; reflexivity|].
+  split; vm_compute; reflexivity.
+Qed.
